@@ -4,9 +4,25 @@ From Yv Require Export Common.Base C13.Model C13.Spec C13.ProofsKern C13.ProofsI
   C13.ProofsRef.
 
 Definition ex_prog : list cmd :=
-  [CAsync 2 7%N; CAsync 0 0%N; CWait None; CProbe; CPipe [(1, 1%N); (0, 0%N); (1, 5%N)] false; CProbe;
-   CPipe [(0, 3%N); (1, 0%N)] true; CProbe; CAsync 1 9%N; CWait (Some 7); CProbe; CWait (Some 7); CProbe;
-   CWait (Some 99); CProbe; CWait None].
+  [CAsync [AWork; AWork] 7%N; CAsync [] 0%N; CWait None; CProbe;
+   CPipe [([AWork], 1%N); ([], 0%N); ([AWork], 5%N)] false; CProbe;
+   CPipe [([], 3%N); ([AWork], 0%N)] true; CProbe; CAsync [AWork] 9%N; CWait (Some 7); CProbe;
+   CWait (Some 7); CProbe; CWait (Some 99); CProbe; CWait None].
+
+(* a helper stops the foreground subshell and continues it later: the shell
+   keeps waiting and reports the true exit status 5 *)
+Definition ex_stop_prog : list cmd :=
+  [CAsync [AWork; AKill SStop 1; AWork; AWork; AKill SCont 1] 0%N;
+   CPipe [([AWork; AWork; AWork], 5%N)] false; CProbe; CWait None; CProbe].
+
+Definition ex_stop_sched : list label :=
+  [LP; LP; LP; LP; LP; LP; LP; LC 0; LC 1; LC 0; LP; LP; LP; LP; LP; LC 0; LC 0; LC 0; LP; LP; LP; LP; LP;
+   LC 1; LC 1; LC 1; LC 0].
+
+Example ex_stop_midway :
+  exists s c, run (init ex_stop_prog) (firstn 12 ex_stop_sched) = Some s /\
+              nth_error (kids (kn s)) 1 = Some c /\ cs c = Stopped [AWork; AWork] /\ final s = false.
+Proof. eexists. eexists. vm_compute. repeat split. Qed.
 
 (* a complete run under a round-robin scheduler *)
 Fixpoint ex_sched (fuel : nat) (tick : nat) (s : state) : list label :=
@@ -35,14 +51,19 @@ Example ex_run_final :
             /\ length (kids (kn s)) = 8.
 Proof. eexists. vm_compute. repeat split. Qed.
 
+Example ex_stop_run_final :
+  exists s, run (init ex_stop_prog) (ex_sched 400 0 (init ex_stop_prog)) = Some s /\ final s = true /\
+            trace s = [(5%N, Some 0); (0%N, Some 0)] /\ forallb is_reaped (kids (kn s)) = true.
+Proof. eexists. vm_compute. repeat split. Qed.
+
 (* a reachable state in which the parent sits inside select while the child it
    waits for has already exited: the hypotheses of no_lost_sigchld hold *)
 Example ex_blocked_with_news :
-  exists s t c, run (init [CPipe [(0, 4%N)] false]) [LP; LP; LP; LP; LP; LP; LP; LP; LC 0] = Some s /\
+  exists s t c, run (init [CPipe [([], 4%N)] false]) [LP; LP; LP; LP; LP; LP; LP; LP; LC 0] = Some s /\
               at_ s = PWait SBlocked t c /\ has_news (kn s) t /\ caught (kn s) = 1.
 Proof.
   eexists. eexists. eexists. split; [vm_compute; reflexivity|].
-  split; [reflexivity|]. split; [|reflexivity]. exists 0, 4%N. reflexivity.
+  split; [reflexivity|]. split; [|reflexivity]. split; discriminate.
 Qed.
 
 (* a non-final reachable state: the hypothesis of progress *)
@@ -54,7 +75,7 @@ Proof. eexists. vm_compute. split; reflexivity. Qed.
    having blocked SIGCHLD and installed the handler (a state the invariant
    excludes), the exit of the child would go unnoticed *)
 Example lost_wakeup_without_handler :
-  let s0 := mkState (mkKern [mkChild (Running 0) 4%N 0] false false false 0) []
+  let s0 := mkState (mkKern [mkChild (Running []) 4%N 0 false] false false false 0) []
                     (PWait SEnter (TPid 0) (KPipe [] 0%N false true)) 0%N None [] [] in
   exists s, run s0 [LC 0; LP] = Some s /\ at_ s = PWait SBlocked (TPid 0) (KPipe [] 0%N false true)
             /\ caught (kn s) = 0 /\ (forall l, step s l = None).
